@@ -306,7 +306,7 @@ Fixpoint tree_of_list (l : list Z) (i : Z) (t : tree) : tree :=
   match l with [] => t | x :: l' => tree_of_list l' (i + 1) (zset t i x) end.
 
 Record tables := { t_p : Z; t_k : Z; t_q : Z; t_one : Z; t_mone : Z; t_irred : Z;
-                   t_log2pol : list Z; t_pol2log : tree; t_plus1 : tree }.
+                   t_log2pol : list Z; t_l2ptree : tree; t_pol2log : tree; t_plus1 : tree }.
 
 (* _log2pol, indices 0 .. q-1 *)
 Definition build_log2pol (p k f g : Z) : list Z :=
@@ -342,7 +342,7 @@ Definition mk_tables (p k f g : Z) : tables :=
   let pl1 := 0 :: map (plus1_entry p qm1 p2l) (tl l2p) in
   let pl1t := zset (tree_of_list pl1 0 Leaf) mone 0 in    (* _plus1[mOne] = 0 *)
   {| t_p := p; t_k := k; t_q := q; t_one := one; t_mone := mone; t_irred := f;
-     t_log2pol := l2p; t_pol2log := p2l; t_plus1 := pl1t |}.
+     t_log2pol := l2p; t_l2ptree := tree_of_list l2p 0 Leaf; t_pol2log := p2l; t_plus1 := pl1t |}.
 
 Definition plun_of (T : tables) : Z -> Z := zget (t_plus1 T).
 Fixpoint range_from (n : nat) (i : Z) : list Z :=
